@@ -1,6 +1,6 @@
 (* C15: matrix norms.  Frobenius entry points are generated from utils.py; the induced norms are
    modelled by norm1 / norminf of coq/thm/Norms.v (tied to the code by the correspondence run). *)
-From Coq Require Import Reals Lra Arith Lia Ring.
+From Coq Require Import Reals Lra Arith Lia Ring List.
 From QV Require Import CRing CRingR Sums Quat Mat QMat.
 From QVT Require Import CauchySchwarz Norms.
 From B Require Import Gen_C15.
@@ -49,9 +49,28 @@ Theorem C15_2_le_F_le_sqrt_rank_2 (r : nat) (s : nat -> R) : (forall i, 0 <= s i
   maxR r s <= sqrt (@sumR RR r (fun i => s i * s i)) /\ sqrt (@sumR RR r (fun i => s i * s i)) <= sqrt (INR r) * maxR r s.
 Proof. exact (two_le_F_le_sqrt_rank_two r s). Qed.
 
+(* spectral_norm_2 / matrix_norm(A, 2), generated from the source: the largest entry of the singular-value vector of classical_qsvd_full(A)
+   (that this vector holds the singular values is C05's contract), 0 for an empty one *)
+Lemma lmax_ub (s : list R) x : In x s -> x <= lmax s.
+Proof. unfold lmax. generalize (hd 0 s) as d. induction s as [|a s IH]; intros d Hx; [destruct Hx|].
+  destruct Hx as [->|Hx]; cbn [fold_right]; [apply Rmax_l|]. eapply Rle_trans; [apply (IH d Hx) | apply Rmax_r]. Qed.
+Lemma lmax_in_aux (s : list R) d : In (fold_right Rmax d s) (d :: s).
+Proof. induction s as [|a s IH]; cbn [fold_right]; [left; reflexivity|]. unfold Rmax at 1. destruct (Rle_dec a (fold_right Rmax d s)).
+  - destruct IH as [E|E]; [left; exact E | right; right; exact E].
+  - right; left; reflexivity. Qed.
+Theorem C15_norm2_is_largest_singular_value (s : list R) : s <> nil ->
+  In (gen_spectral_norm_2 s) s /\ forall x, In x s -> x <= gen_spectral_norm_2 s.
+Proof.
+  intros Hs. destruct s as [|a s]; [contradiction|]. unfold gen_spectral_norm_2. cbn [length Nat.eqb]. split; [|apply lmax_ub].
+  unfold lmax. cbn [hd]. destruct (lmax_in_aux (a :: s) a) as [E|E]; [left; exact E | exact E].
+Qed.
+Theorem C15_norm2_of_nothing : gen_spectral_norm_2 nil = 0.
+Proof. reflexivity. Qed.
+
 Print Assumptions C15_frobenius_is_definition.
 Print Assumptions C15_entry_points_agree.
 Print Assumptions C15_frobenius_triangle.
 Print Assumptions C15_norm1_submultiplicative.
 Print Assumptions C15_norminf_submultiplicative.
 Print Assumptions C15_2_le_F_le_sqrt_rank_2.
+Print Assumptions C15_norm2_is_largest_singular_value.
